@@ -51,7 +51,7 @@ M = Monitor(
           "pull-back (cube / simplex images) and (5) by a two-sample test against an independent rejection sampler "
           "(random / skewed / flat / interior-heavy clouds and estimator gamuts). non-trivial = at least 2 samples requested "
           "(a population, not a single point); distinct = hash of rounded inputs"),
-    budget={"quick": (672, 75), "thorough": (43470, 1500)},
+    budget={"quick": (768, 75), "thorough": (48870, 1500)},
     anchors=[("dreye.api.sampling", "sample_in_hull"), ("dreye.api.estimator", "ReceptorEstimator.sample_in_hull")],
     deciding=["sampling.sample_in_hull", "estimator.ReceptorEstimator.sample_in_hull"],
     required_cells={"all": ["engine=None", "engine=Halton", "engine=Sobol", "engine=LHC", "d=2", "d=3", "d=4",
@@ -830,17 +830,58 @@ def chk_two(inp, c):
     c.note("n_vertices", int(len(V)))
 
 
+# =============================================================================================== clause 6: sampling after re-registration
+
+def gen_rereg(rng, i):
+    m = 2 + i % 3
+    s = gen.make_system(rng, m=m, n=int(rng.integers(m, m + 3)), ubkind="finite")
+    s.update({"n": int([7, 64, 1000][rng.integers(3)]), "engine": ENGINES[rng.integers(4)], "seed": _seed(rng),
+              "rereg_seed": int(rng.integers(0, 2 ** 31 - 1)), "l1_first": bool(rng.integers(2))})
+    return s
+
+
+def chk_rereg(inp, c):
+    """The gamut sampled from is the one of the CURRENTLY registered values: sample, change a registration on the same
+    estimator, sample again and judge the second sample against the new system."""
+    n, eng, seed = int(inp["n"]), inp["engine"], int(inp["seed"])
+    est = c.call(gen.make_estimator, dreye, inp, _where="ReceptorEstimator+register_system")
+    _call_quiet(c, est.sample_in_gamut, n, seed=seed, engine=eng, _where="ReceptorEstimator.sample_in_gamut (before)")
+    if inp["l1_first"]:
+        c.try_call(lambda: _quiet(est.sample_in_gamut, 5, seed=seed, l1=1.0))
+    rr = np.random.default_rng(inp["rereg_seed"])
+    ok, res = c.try_call(gen.reregister, rr, est, inp)
+    if not ok:
+        c.fail(f"registration call raised {type(res).__name__}: {str(res)[:100]}", mechanism="rereg-raised")
+    op, t = res
+    Mt, c0, lbv, ubv = gen.sys_arrays(t)
+    m = Mt.shape[0]
+    c.cell("api=sample_in_gamut", "rereg=" + op, "engine=" + _engine_name(eng), f"m={m}")
+    X = _check_shape_finite(c, _call_quiet(c, est.sample_in_gamut, n, seed=seed, engine=eng,
+                                           _where="ReceptorEstimator.sample_in_gamut (after " + op + ")"), n, m,
+                            "sample_in_gamut")
+    if X is None:
+        return
+    orng = np.random.default_rng([seed, 23])
+    _gamut_membership(c, X, Mt, c0, lbv, ubv, orng, "sample-outside-gamut:after-reregistration",
+                      "after re-registration every sample lies in the gamut of the currently registered system")
+    # (samples are not compared with those of a fresh estimator: K differs by rounding between the two, and qhull's
+    #  triangulation - hence the sample values, not their distribution - is not continuous in its input)
+    c.nontrivial()
+    c.note("rereg", op)
+
+
 # =============================================================================================== registration
 
 def _register(tier, weights, min_helds):
     sfx = "" if tier == "quick" else "_thorough"
-    names = ["hull_contract", "gamut_contract", "l1_contract", "uniform_pullback", "uniform_two_sample"]
-    fns = [(gen_hull, chk_hull), (gen_gamut, chk_gamut), (gen_l1, chk_l1), (gen_pull, chk_pull), (gen_two, chk_two)]
+    names = ["hull_contract", "gamut_contract", "l1_contract", "uniform_pullback", "uniform_two_sample", "after_reregistration"]
+    fns = [(gen_hull, chk_hull), (gen_gamut, chk_gamut), (gen_l1, chk_l1), (gen_pull, chk_pull), (gen_two, chk_two),
+           (gen_rereg, chk_rereg)]
     for name, (g, k), w, mh in zip(names, fns, weights, min_helds):
         M.add(name + sfx, g, k, weight=w, min_held=mh, tiers=(tier,))
 
 
 # quick: 48 rounds of 14 cases  -> 288 / 144 / 144 / 48 / 48 cases; <= 48*6 + 48*2 = 384 statistical tests
-_register("quick", (6, 3, 3, 1, 1), (200, 100, 70, 36, 36))
+_register("quick", (6, 3, 3, 1, 1, 2), (200, 100, 70, 36, 36, 60))
 # thorough: 90 rounds of 483 cases -> 21600 / 10800 / 10800 / 90 / 180 cases; <= 90*6 + 180*2 = 900 statistical tests
-_register("thorough", (240, 120, 120, 1, 2), (15000, 7000, 5000, 70, 140))
+_register("thorough", (240, 120, 120, 1, 2, 60), (15000, 7000, 5000, 70, 140, 3000))
